@@ -345,8 +345,8 @@ def do_snapshot(req):
             if m["name"].startswith("sqlite_"):
                 continue
             info = tl.get(m["name"], {"wr": 0})
-            if info.get("type") not in (None, "table"):
-                continue
+            if info.get("type") not in (None, "table", "shadow"):
+                continue  # (shadow tables of virtual tables are ordinary b-tree tables)
             tables.append(snapshot_table(c, m["name"], info["wr"], hints))
         out["tables"] = tables
         if req.get("dbstat"):
